@@ -233,12 +233,58 @@ class FuncSym(object):
     def loop_range(self, var_id, at):
         """If `var_id` is the induction variable of an enclosing `for (v = a; v < hi; ++v)` loop at node
         `at`, return (lo Lin, hi_exclusive Lin, step) ; also handles `<=`, and descending loops."""
-        for loop in self.enclosing_all(at, ('ForStmt',)):
-            init, _cv, cond, inc, body = loop.kids
-            iv = self._induction(loop)
+        for loop in self.enclosing_all(at, ('ForStmt', 'WhileStmt')):
+            iv = self._induction(loop) if loop.kind == 'ForStmt' else self._induction_while(loop)
             if iv is None or iv[0] != var_id:
                 continue
             return iv[1], iv[2], iv[3]
+        return None
+
+    def _induction_while(self, loop):
+        """`v = E; while (v >= c) { ...; --v; }` (and the ascending mirror): the counter is declared/assigned once before the
+        loop, tested in the condition, and stepped by the LAST statement of the body and nowhere else."""
+        cond, body = loop.kids[0], loop.kids[-1]
+        if loop.kind != 'WhileStmt' or body.kind != 'CompoundStmt' or not body.kids:
+            return None
+        c = strip(cond)
+        if c is None or c.kind != 'BinaryOperator' or c.op not in ('<', '<=', '>', '>='):
+            return None
+        l = strip(c.kids[0], casts=True)
+        if l.kind != 'DeclRefExpr' or l.refid not in self.decl:
+            return None
+        vid = l.refid
+        last = strip(body.kids[-1])
+        step = None
+        if last is not None and last.kind == 'UnaryOperator' and last.op in ('++', '--') and strip(last.kids[0]).kind == 'DeclRefExpr' and strip(last.kids[0]).refid == vid:
+            step = 1 if last.op == '++' else -1
+        elif last is not None and last.kind == 'CompoundAssignOperator' and last.op in ('+=', '-=') and strip(last.kids[0]).kind == 'DeclRefExpr' and strip(last.kids[0]).refid == vid \
+                and int_value(last.kids[1]) is not None:
+            step = int_value(last.kids[1]) if last.op == '+=' else -int_value(last.kids[1])
+        if step is None:
+            return None
+        # no other modification of the counter anywhere in the function except its single definition
+        nmods = 0
+        for n in self.f.body.walk():
+            if (n.kind == 'BinaryOperator' and n.op == '=') or n.kind == 'CompoundAssignOperator' or (n.kind == 'UnaryOperator' and n.op in ('++', '--', '&')):
+                t = strip(n.kids[0])
+                if t.kind == 'DeclRefExpr' and t.refid == vid:
+                    nmods += 1
+        d = self.decl[vid]
+        if nmods != 1 or d.kind != 'VarDecl' or not d.kids or not d.init:
+            return None
+        # `continue` inside the body would skip the step
+        if any(n.kind == 'ContinueStmt' for n in body.walk()):
+            return None
+        start = self.sym(d.kids[-1])
+        bound = self.sym(c.kids[1])
+        if step < 0 and c.op in ('>', '>='):
+            low = bound + Lin(1) if c.op == '>' else bound
+            return vid, low, start + Lin(1), step
+        if step > 0 and c.op in ('<', '<='):
+            hi = bound + Lin(1) if c.op == '<=' else bound
+            if step > 1:
+                return None
+            return vid, start, hi, step
         return None
 
     def _induction(self, loop):
